@@ -217,7 +217,8 @@ func (r *runner) account(o *obs) {
 	}
 	mismatch := !o.NoModel && o.Model != o.Impl
 	if !o.NoModel && strings.HasPrefix(o.Model, "NS") {
-		// outside the model's faithful domain: only the Ok/Err/Panic class is compared
+		// outside the model's faithful domain the model's value and its Ok/Err distinction are not claimed: only whether
+		// the call panics is compared (model class Panic vs implementation panic)
 		r.dist[g+".outside_faithful_domain"]++
 		cls := strings.Fields(o.Model)
 		ic := strings.Fields(o.Impl)
